@@ -47,6 +47,8 @@ a_kinds! {
     EventWaiter, ListenerWaiter, DiscWaiter,
     // Deterministic rounds with exact expectations (C04 / C10 at API level).
     EventRound, ListenerRound,
+    // The client's introspection API.
+    IntroRegister, IntroQuery,
 }
 
 #[derive(Debug, Clone, Copy, PartialEq, Eq)]
@@ -94,6 +96,8 @@ pub struct Board {
     pub call_abort_flags: BTreeMap<u64, (Rc<Cell<bool>>, u32)>,
     /// Command queues of all server tasks (any client may ask a server to emit).
     pub service_cmds: Vec<(ServiceId, mpsc::UnboundedSender<SvcCmd>)>,
+    /// Per harness type index: clients whose registration the broker has processed.
+    pub intro_registrants: BTreeMap<u32, std::collections::BTreeSet<usize>>,
 }
 
 pub type SharedBoard = Rc<RefCell<Board>>;
@@ -177,6 +181,8 @@ pub struct Res {
     pub discoverers: Vec<Option<(Discoverer<u32>, Rc<DiscSpec>, Vec<DiscEvRec>)>>,
     pub scopes: Vec<Option<LifetimeScope>>,
     pub lifetimes: Vec<Option<(Lifetime, LifetimeId)>>,
+    /// Harness type indices this client has registered locally.
+    pub intro_local: std::collections::BTreeSet<u32>,
 }
 
 #[derive(Debug, Clone)]
@@ -808,6 +814,8 @@ async fn run_op(ctx: &Ctx, op: AOp, info: &Rc<TaskInfo>) {
             ctx.client_faulted.set(true);
             handle.shutdown();
         }
+
+        AKind::IntroRegister | AKind::IntroQuery => crate::api_intro::run_intro_op(ctx, op, info, &handle).await,
 
         _ => crate::api_app2::run_op2(ctx, op, info, handle).await,
     }
